@@ -190,6 +190,30 @@ func (c *C17Case) Run() string {
 			}
 			mc := &C04Copy{DT: d.Name, A: Opnd{Shape: c.Shape, Codes: c.A, L: lay}, Op: "ToMat64"}
 			msg = mc.Run()
+		case "eq":
+			// Dense.Eq of two plain tensors: Go's == on every pair of elements (so NaN differs from itself and
+			// -0 equals +0), the same definition for every element type
+			aE, bE := decodeAll(d, c.A), decodeAll(d, c.B)
+			ta := tensor.New(tensor.WithShape(c.Shape...), tensor.WithBacking(mkBacking(d, aE)))
+			tb := tensor.New(tensor.WithShape(c.Shape...), tensor.WithBacking(mkBacking(d, bE)))
+			want := true
+			for k := range aE {
+				if !goEqual(aE[k], bE[k]) {
+					want = false
+				}
+			}
+			var got, rev bool
+			if p := try(func() { got, rev = ta.Eq(tb), tb.Eq(ta) }); p != "" {
+				msg = "Eq panicked: " + p
+				break
+			}
+			if got != want || rev != want {
+				msg = fmt.Sprintf("Eq of %s and %s is %v (the other way round %v), expected %v", fmtVals(aE), fmtVals(bE), got, rev, want)
+				break
+			}
+			if !ta.Eq(ta) {
+				msg = "a tensor is not Eq to itself"
+			}
 		case "argmasked":
 			// arg-reductions of masked tensors have a kernel per element type as well; what they return is not
 			// modelled here (masked elements do not take part) - the types must agree with each other
@@ -392,6 +416,21 @@ func TestC17(t *testing.T) {
 	n := nCases(4, 60)
 	c17FloatCells(t)
 	c17ConsCells(t)
+	cell(t, "C17", "C17.xtype", "eq", nCases(40, 1200), func(rt *rapid.T) Case {
+		shape := genShapeMin2(rt, 1, 3, 4, "s")
+		n := prod(shape)
+		c := &C17Case{Fam: "eq", Op: "Eq", Shape: shape, A: genCodes(rt, n, -2, 4, 30, "a")}
+		c.B = append([]int64{}, c.A...)
+		switch rapid.IntRange(0, 3).Draw(rt, "differ") {
+		case 0: // one element differs
+			k := rapid.IntRange(0, n-1).Draw(rt, "k")
+			c.B[k] = genCodes(rt, 1, -2, 4, 30, "bk")[0]
+		case 1: // zero against zero (the float types have two of them: code 1003 is -0)
+			k := rapid.IntRange(0, n-1).Draw(rt, "k")
+			c.A[k], c.B[k] = 0, 1003
+		}
+		return c
+	})
 	for _, op := range []string{"Argmax", "Argmin"} {
 		op := op
 		cell(t, "C17", "C17.xtype", "argmasked/"+op, nCases(40, 1200), func(rt *rapid.T) Case {
@@ -564,4 +603,19 @@ func TestC17(t *testing.T) {
 			return genC17(rt, "getset", "AtSetAt", "", "", false, iter)
 		})
 	}
+}
+
+// goEqual is Go's == on two values of one element type.
+func goEqual(a, b interface{}) bool {
+	switch x := a.(type) {
+	case float32:
+		return x == b.(float32)
+	case float64:
+		return x == b.(float64)
+	case complex64:
+		return x == b.(complex64)
+	case complex128:
+		return x == b.(complex128)
+	}
+	return a == b
 }
